@@ -30,3 +30,4 @@ Definition k_flow_sd_to_bytes : pfun :=
     SAssign ["dynamic_data"] (PBin "+" (PName "dynamic_data") (PName "group_bytes"));
     SReturn (PMeth "join" (PBytes []) [(PList [(PBytes [1; 0]); (PMeth "to_bytes/byteorder" (PName "control") [(PInt 2); (PStr [108; 105; 116; 116; 108; 101])]); (PMeth "to_bytes/byteorder" (PName "owner_offset") [(PInt 4); (PStr [108; 105; 116; 116; 108; 101])]); (PMeth "to_bytes/byteorder" (PName "group_offset") [(PInt 4); (PStr [108; 105; 116; 116; 108; 101])]); (PMeth "to_bytes/byteorder" (PName "sacl_offset") [(PInt 4); (PStr [108; 105; 116; 116; 108; 101])]); (PMeth "to_bytes/byteorder" (PName "dacl_offset") [(PInt 4); (PStr [108; 105; 116; 116; 108; 101])]); (PName "dynamic_data")])])
   ] |}.
+Definition k_flow_sd_to_bytes_defaults : list (string * pexp) := [("sacl", PNone); ("dacl", PNone)].
